@@ -85,6 +85,13 @@ let run_case op t =
       let _ = next_int t in let _ = next_int t in let _ = next_int t in
       let ch = next_z t in let n = next_z t in let a = next_zlist t in
       (res_s ptr_s (ct_memchr a ch n), opt_s ptr_s (rt_memchr a ch n))
+  | "memchr_at" ->
+      (* the searched range starts at row + off: the model / the specification see the rest of the array object *)
+      (* model: ct_memchr_at of coq/C13/ProofsAt.v (theorem C13_memchr_range) *)
+      let _ = next_int t in let _ = next_int t in let off = next_int t in let n = next_int t in
+      let ch = next_z t in let a = next_zlist t in
+      let rec drop k l = if k <= 0 then l else (match l with [] -> [] | _ :: r -> drop (k - 1) r) in
+      (res_s ptr_s (ct_memchr_at a (nat_of_int off) ch (nat_of_int n)), opt_s ptr_s (rt_memchr (drop off a) ch (z_of_int n)))
   | "floor" | "ceil" | "trunc" | "round" | "rint" ->
       let ty = next_str t in let f = fmt_of ty in let _ = next_int t in let x = read_f ty t in
       let (ct, rt) = (match op with
